@@ -91,7 +91,9 @@ wuffs_private_impl__io_reader__match7(const uint8_t* iop_r,
                                       uint64_t a) {
   uint32_t n = a & 7;
   a >>= 8;
-  if ((io2_r - iop_r) >= 8) {
+  // The (n > 0) avoids undefined behavior (shifting a uint64_t by 64) for a
+  // zero-length prefix, which always matches.
+  if ((n > 0) && ((io2_r - iop_r) >= 8)) {
     uint64_t x = wuffs_base__peek_u64le__no_bounds_check(iop_r);
     uint32_t shift = 8 * (8 - n);
     return ((a << shift) == (x << shift)) ? 0 : 2;
